@@ -14,11 +14,14 @@
 package main
 
 import (
+	"context"
 	"fmt"
 	"os"
+	"os/exec"
 	"regexp"
 	"runtime/debug"
 	"sort"
+	"strconv"
 	"strings"
 	"time"
 
@@ -102,20 +105,20 @@ var pool = map[string][]string{
 	"Std::Date":           {"::Std::Date(2024, 2, 29)", "::Std::Date(1999, 12, 31)"},
 	"Std::Time":           {"::Std::Time(13, 45, 7)", "::Std::Time(0, 0, 0)"},
 	"Std::DateTime":       {"::Std::DateTime(2024, 2, 29, 13, 45, 7)", "::Std::DateTime(1999, 12, 31, 23, 59, 59)"},
-	"Std::Date::Span":     {`::Std::Date::Span.parse("1Y2M3D")`, "::Std::Date::Span.days(40)"},
-	"Std::Time::Span":     {"::Std::Time::Span.seconds(90)", "::Std::Time::Span.hours(2)"},
-	"Std::DateTime::Span": {`::Std::DateTime::Span.parse("1Y2M3D 4h5m6s")`, "::Std::DateTime::Span(::Std::Date::Span.days(2), ::Std::Time::Span.hours(3))"},
-	"Std::Duration":       {"::Std::Time::Span.seconds(90)", "::Std::Date::Span.days(40)"},
+	"Std::Date::Span":     {"::Std::Date::Span(1, 2, 3)", "40.days"},
+	"Std::Time::Span":     {"::Std::Time::Span(1, 30, 15)", "90.seconds"},
+	"Std::DateTime::Span": {"::Std::DateTime::Span(1, 2, 3, 4, 5, 6)", "::Std::DateTime::Span(0, 0, 2, 3)"},
+	"Std::Duration":       {"::Std::Time::Span(1, 30, 15)", "::Std::Date::Span(1, 2, 3)"},
 	"Std::Timezone":       {"::Std::Timezone::UTC", `::Std::Timezone["Europe/Warsaw"]`},
 
 	"Std::Channel":         {"::Std::Channel::[::Std::Int](2)"},
 	"Std::ReadChannel":     {"::Std::Channel::[::Std::Int](2).readonly"},
 	"Std::WriteChannel":    {"::Std::Channel::[::Std::Int](2).writeonly"},
 	"Std::Promise":         {"::Std::Promise.resolved(3)"},
-	"Std::Result":          {"::Std::Result.ok(3)", `::Std::Result.err("bad")`},
+	"Std::Result":          {"::Std::Result.ok(3)", `::Std::Result.err(::Std::Error("bad"))`},
 	"Std::Box":             {"::Std::Box(3)"},
 	"Std::ImmutableBox":    {"::Std::ImmutableBox(3)"},
-	"Std::Weak":            {`::Std::Weak("abc")`},
+	"Std::Weak":            {`::Std::Weak(::Std::ImmutableBox("abc"))`},
 	"Std::Sync::Mutex":     {"::Std::Sync::Mutex()"},
 	"Std::Sync::RWMutex":   {"::Std::Sync::RWMutex()"},
 	"Std::Sync::ROMutex":   {"::Std::Sync::RWMutex().to_read_only"},
@@ -156,12 +159,14 @@ var pool = map[string][]string{
 	"Std::Elk::AST::ConstantNode":         {`::Std::Elk::AST::PublicConstantNode("Foo")`},
 	"Std::Elk::AST::IdentifierNode":       {`::Std::Elk::AST::PublicIdentifierNode("foo")`, `::Std::Elk::AST::PrivateIdentifierNode("_foo")`},
 	"Std::Elk::AST::InstanceVariableNode": {`::Std::Elk::AST::PublicInstanceVariableNode("foo")`},
+	"Std::Elk::AST::PrivateIdentifierNode": {`::Std::Elk::AST::PrivateIdentifierNode("_foo")`},
+	"Std::Elk::AST::PrivateConstantNode":   {`::Std::Elk::AST::PrivateConstantNode("_Foo")`},
 	"Std::Elk::AST::StringLiteralNode":    {`::Std::Elk::AST::DoubleQuotedStringLiteralNode("foo")`},
 	"Std::Elk::AST::SimpleStringLiteralNode": {`::Std::Elk::AST::DoubleQuotedStringLiteralNode("foo")`},
 	"Std::Elk::AST::SymbolLiteralNode":    {`::Std::Elk::AST::SimpleSymbolLiteralNode("foo")`},
 	"Std::Elk::AST::NamedArgumentNode":    {`::Std::Elk::AST::NamedCallArgumentNode(::Std::Elk::AST::PublicIdentifierNode("foo"), ::Std::Elk::AST::IntLiteralNode("1"))`},
-	"Std::Elk::AST::ParameterNode":        {`::Std::Elk::AST::FormalParameterNode(::Std::Elk::AST::PublicIdentifierNode("foo"))`},
-	"Std::Elk::AST::TypeParameterNode":    {`::Std::Elk::AST::VariantTypeParameterNode(::Std::Elk::AST::PublicConstantNode("T"))`},
+	"Std::Elk::AST::ParameterNode":        {`::Std::Elk::AST::FormalParameterNode(::Std::Elk::AST::PublicIdentifierNode("foo"), 0u8)`},
+	"Std::Elk::AST::TypeParameterNode":    {`::Std::Elk::AST::VariantTypeParameterNode("T")`},
 	"Std::Elk::AST::UsingEntryNode":       {`::Std::Elk::AST::PublicConstantNode("Foo")`},
 	"Std::Elk::AST::UsingSubentryNode":    {`::Std::Elk::AST::PublicConstantNode("Foo")`},
 	"Std::Elk::AST::StructBodyStatementNode": {`::Std::Elk::AST::ParameterStatementNode(::Std::Elk::AST::AttributeParameterNode(::Std::Elk::AST::PublicIdentifierNode("foo")))`},
@@ -191,7 +196,7 @@ var recvBind = map[string][]map[string]string{
 	"Std::EndlessClosedRange": {{"Val": "Std::Int"}, {"Val": "Std::Float"}},
 	"Std::EndlessOpenRange": {{"Val": "Std::Int"}, {"Val": "Std::Float"}},
 	"Std::String::CharIterator": {{"Val": "Std::Char"}, {"Val": "Std::Char"}},
-	"Std::Result":     {{"Val": "Std::Int", "Err": "Std::String"}, {"Val": "Std::Int", "Err": "Std::String"}},
+	"Std::Result":     {{"Val": "Std::Int", "Err": "Std::Error"}, {"Val": "Std::Int", "Err": "Std::Error"}},
 	"Std::Weak":       {{"Val": "Std::String"}},
 	"Std::HashMap::Iterator": {{"Key": "Std::String", "Value": "Std::Int"}},
 	"Std::HashRecord::Iterator": {{"Key": "Std::String", "Value": "Std::Int"}},
@@ -301,11 +306,12 @@ func targets(all []types.Namespace) []target {
 	return ts
 }
 
-// callName strips the overload suffix from a method map key.
+var overloadRe = regexp.MustCompile(`^(.+)@\d+$`)
+
+// callName strips the overload suffix ("name@k") from a method map key (unary operators end in a bare "@").
 func callName(t target) string {
-	if t.m.OverloadId > 0 {
-		suf := fmt.Sprintf("@%d", t.m.OverloadId)
-		return strings.TrimSuffix(t.key, suf)
+	if m := overloadRe.FindStringSubmatch(t.key); m != nil {
+		return m[1]
 	}
 	return t.key
 }
@@ -526,6 +532,11 @@ func construct(cls *types.Class, c *gctx) string {
 			if len(a) == 0 {
 				return ""
 			}
+			// numeric literal nodes validate their text: give them digits rather than the first String value
+			if strings.HasSuffix(cls.Name(), "LiteralNode") && p.Name.String() == "value" && nsName(p.Type) == "Std::String" &&
+				regexp.MustCompile(`(Int|Float)\d*LiteralNode$`).MatchString(cls.Name()) {
+				a = []string{`"12"`}
+			}
 			args = append(args, a[0])
 		}
 	}
@@ -626,9 +637,9 @@ func genGeneric(g *types.Generic, c *gctx) []string {
 	case "Std::RightOpenRange":
 		return rangeLit(g, c, "%s..<%s")
 	case "Std::EndlessClosedRange":
-		return rangeLit(g, c, "%s...")
+		return rangeLit(g, c, "%[1]s...")
 	case "Std::EndlessOpenRange":
-		return rangeLit(g, c, "%s<..")
+		return rangeLit(g, c, "%[1]s<..")
 	case "Std::BeginlessClosedRange":
 		return rangeLit(g, c, "...%[2]s")
 	case "Std::BeginlessOpenRange":
@@ -653,7 +664,11 @@ func rangeLit(g *types.Generic, c *gctx, format string) []string {
 	default:
 		return nil
 	}
-	return []string{"(" + fmt.Sprintf(format, lo, hi) + ")"}
+	lit := fmt.Sprintf(format, lo, hi)
+	if i := strings.Index(lit, "%!(EXTRA"); i >= 0 {
+		lit = lit[:i]
+	}
+	return []string{"(" + lit + ")"}
 }
 
 func genClosure(cl *types.Callable, c *gctx) []string {
@@ -965,17 +980,22 @@ type itemResult struct {
 	rejected bool
 	diag     string
 	ready    bool
+	recv     value.Value // the receiver value (undefined until the receiver expression has been evaluated)
 	tag      string // "ok", "err", "" (nothing recorded: the run did not get there)
 	val      value.Value
 	panicked string
 	stack    string
+	blocked  bool // the call did not return within blockTimeout
 }
+
+// blockTimeout bounds one batch of calls (normally milliseconds).
+const blockTimeout = 6 * time.Second
 
 func itemSource(i int, cl call) string {
 	var b strings.Builder
 	fmt.Fprintf(&b, "do\n")
 	fmt.Fprintf(&b, "  r%d := %s\n", i, cl.recv.expr)
-	fmt.Fprintf(&b, "  res << %d; res << :ready; res << nil\n", i)
+	fmt.Fprintf(&b, "  res << %d; res << :ready; res << r%d\n", i, i)
 	src := strings.Replace(cl.src, "r", fmt.Sprintf("r%d", i), 1)
 	if strings.HasPrefix(cl.src, "<<r") {
 		src = fmt.Sprintf("<<r%d", i)
@@ -1011,6 +1031,7 @@ func compileSrc(src string) (c compiled) {
 			c.stack = string(debug.Stack())
 			c.panic = engine.PanicSig(fmt.Sprint(p), c.stack)
 			c.fn = nil
+			tainted = true
 		}
 	}()
 	fn, diags := checker.CheckSource("c28.elk", src, nil, bitfield.BitField16{}, nil)
@@ -1095,21 +1116,48 @@ func runItems(calls []call, idx []int, res []itemResult, depth int) {
 		runItems(calls, idx[mid:], res, depth+1)
 		return
 	}
-	// run
-	var out strings.Builder
-	var val, errv value.Value
-	var pan, stack string
-	func() {
+	// run, on a goroutine of its own: a call that blocks (a native waiting on a lock or channel forever) is abandoned
+	// after blockTimeout — the goroutine stays parked — and the process counts as tainted from then on
+	type runOut struct {
+		val, errv  value.Value
+		pan, stack string
+	}
+	done := make(chan runOut, 1)
+	go func() {
+		var o runOut
+		var out strings.Builder
 		defer func() {
 			if p := recover(); p != nil {
-				stack = string(debug.Stack())
-				pan = engine.PanicSig(fmt.Sprint(p), stack)
+				o.stack = string(debug.Stack())
+				o.pan = engine.PanicSig(fmt.Sprint(p), o.stack)
 			}
+			done <- o
 		}()
 		th := vm.New(vm.WithStdout(&out), vm.WithStderr(&out))
 		defer th.Aborter.CancelFunc()()
-		val, errv = th.InterpretTopLevel(c.fn)
+		o.val, o.errv = th.InterpretTopLevel(c.fn)
 	}()
+	var val, errv value.Value
+	var pan, stack string
+	select {
+	case o := <-done:
+		val, errv, pan, stack = o.val, o.errv, o.pan, o.stack
+		// a dispatch failure ("tried to call an invalid method") panics before any native code has run: it leaves
+		// nothing behind; any other panic may have interrupted a native function half-way
+		if pan != "" && !strings.HasPrefix(pan, "tried to call an invalid method") {
+			tainted = true
+		}
+	case <-time.After(blockTimeout):
+		tainted = true
+		if len(idx) == 1 {
+			res[idx[0]].blocked = true
+			return
+		}
+		mid := len(idx) / 2
+		runItems(calls, idx[:mid], res, depth+1)
+		runItems(calls, idx[mid:], res, depth+1)
+		return
+	}
 	if pan != "" {
 		if len(idx) == 1 {
 			res[idx[0]].panicked, res[idx[0]].stack = pan, stack
@@ -1154,6 +1202,7 @@ func runItems(calls []call, idx []int, res []itemResult, depth int) {
 		switch tag {
 		case "ready":
 			res[i].ready = true
+			res[i].recv = flat[k+2]
 		case "ok", "err", "void":
 			res[i].tag, res[i].val = tag, flat[k+2]
 		}
@@ -1181,6 +1230,8 @@ func runtimeConst(name string) value.Value {
 			cc = &o.ConstantContainer
 		case *value.Class:
 			cc = &o.ConstantContainer
+		case *value.Interface:
+			cc = &o.ConstantContainer
 		default:
 			return value.Undefined
 		}
@@ -1193,9 +1244,9 @@ func runtimeConst(name string) value.Value {
 }
 
 type octx struct {
-	bind     map[string]types.Type
-	recvName string // full name of the declaring namespace (for `self`)
-	depth    int
+	bind  map[string]types.Type
+	recv  value.Value // the receiver of the call (for `self`); undefined when unknown
+	depth int
 }
 
 func check(v value.Value, t types.Type, c *octx) verdict {
@@ -1258,7 +1309,18 @@ func check(v value.Value, t types.Type, c *octx) verdict {
 		}
 		return undecided
 	case types.Self:
-		return checkNamed(v, c.recvName)
+		// `self` is the type of the receiver: the result must be an instance of the receiver's runtime class
+		if c.recv.IsUndefined() {
+			return undecided
+		}
+		rc, ok := safeClass(c.recv)
+		if !ok || rc == nil {
+			return undecided
+		}
+		if value.IsA(v, rc) {
+			return conforms
+		}
+		return violates
 	case *types.Generic:
 		return checkNamed(v, tt.Namespace.Name())
 	case *types.Class:
@@ -1266,8 +1328,8 @@ func check(v value.Value, t types.Type, c *octx) verdict {
 	case *types.Mixin:
 		return checkNamed(v, tt.Name())
 	case *types.Interface:
-		cls := v.Class()
-		if cls == nil {
+		cls, ok := safeClass(v)
+		if !ok || cls == nil {
 			return undecided
 		}
 		for name, m := range types.AllMethods(tt) {
@@ -1305,6 +1367,68 @@ func checkNamed(v value.Value, name string) verdict {
 
 // ---------------------------------------------------------------------------------------------------------
 
+var invalidMethodRe = regexp.MustCompile("tried to call an invalid method: <nil> \\(:\"?([^\")]+)\"?\\) of class: (\\S*)")
+
+// evalExpr evaluates one expression on its own (used to look at the receiver of a call that panicked).
+func evalExpr(expr string) (v value.Value) {
+	v = value.Undefined
+	defer func() { recover() }()
+	c := compileSrc("x := " + expr + "\nx\n")
+	if c.fn == nil {
+		return
+	}
+	var out strings.Builder
+	th := vm.New(vm.WithStdout(&out), vm.WithStderr(&out))
+	defer th.Aborter.CancelFunc()()
+	val, errv := th.InterpretTopLevel(c.fn)
+	if errv.IsUndefined() {
+		v = val
+	}
+	return
+}
+
+// panicSignature names the defect behind a Go panic: a method that the headers declare but the runtime does not
+// have (per runtime class and method; per mixin when the runtime class does not include the mixin at all), or a
+// panic inside a native function (identified by its frames; the method is added when the frames are generic).
+func panicSignature(t target, cl call, ir itemResult) string {
+	msg := ir.panicked
+	if m := invalidMethodRe.FindStringSubmatch(msg); m != nil {
+		method, rclass := m[1], m[2]
+		if _, isMixin := t.ns.(*types.Mixin); isMixin && !t.singleton {
+			if mc, ok := runtimeConst(t.ns.Name()).SafeAsReference().(*value.Class); ok {
+				if rv := evalExpr(cl.recv.expr); !rv.IsUndefined() && !value.IsA(rv, mc) {
+					return fmt.Sprintf("mixin methods the headers give to %s are missing at run time: the runtime class does not include the mixin (Go panic: tried to call an invalid method)", className(rv))
+				}
+			}
+		}
+		if rclass == "" {
+			return fmt.Sprintf("no runtime implementation of singleton method %s (Go panic: tried to call an invalid method)", t.id)
+		}
+		return fmt.Sprintf("no runtime implementation of %s#%s (Go panic: tried to call an invalid method)", rclass, method)
+	}
+	generic := true
+	for _, f := range strings.Split(msg, " @ ")[1:] {
+		if !strings.HasPrefix(f, "vm.(*Thread).") {
+			generic = false
+		}
+	}
+	if generic {
+		return fmt.Sprintf("go-panic calling %s: %s", t.id, msg)
+	}
+	return "go-panic in native code: " + msg
+}
+
+// trimStack drops the harness/runtime frames above the first elk frame.
+func trimStack(st string) string {
+	if i := strings.Index(st, "github.com/elk-language/elk/"); i >= 0 {
+		j := strings.LastIndex(st[:i], "\n")
+		if j >= 0 {
+			return st[j+1:]
+		}
+	}
+	return st
+}
+
 var debugFile *os.File
 
 // debugf appends to a per-process file under .work/c28 (development aid, enabled by C28_DEBUG).
@@ -1320,12 +1444,35 @@ func debugf(format string, args ...any) {
 	fmt.Fprintf(debugFile, format, args...)
 }
 
+// safeClass returns the class of a value; ok=false when the value is not a well-formed Elk value (e.g. a reference
+// wrapping a nil Go pointer), for which Class() itself panics.
+func safeClass(v value.Value) (c *value.Class, ok bool) {
+	defer func() {
+		if recover() != nil {
+			c, ok = nil, false
+		}
+	}()
+	return v.Class(), true
+}
+
 func className(v value.Value) string {
-	c := v.Class()
+	c, ok := safeClass(v)
+	if !ok {
+		return "<malformed value>"
+	}
 	if c == nil {
 		return "<no class>"
 	}
 	return c.PrintableName()
+}
+
+func safeInspect(v value.Value) (s string) {
+	defer func() {
+		if recover() != nil {
+			s = "<uninspectable>"
+		}
+	}()
+	return v.Inspect()
 }
 
 func short(s string, n int) string {
@@ -1338,6 +1485,202 @@ func short(s string, n int) string {
 var quickClasses = regexp.MustCompile(`^Std::(String|Int|Float|BigFloat|Char|Symbol|Bool|True|False|Nil|Value|ArrayList|ArrayTuple|HashMap|HashSet|HashRecord|Pair|Regex|Date|Time|DateTime|Timezone|Result|Box|ImmutableBox|Kernel|Channel|Tuple|List|Map|Set|Record|Range|Iterable|Comparable|Duration|Error|Class|` +
 	`ClosedRange|OpenRange|LeftOpenRange|RightOpenRange|BeginlessClosedRange|BeginlessOpenRange|EndlessClosedRange|EndlessOpenRange|Int8|UInt8|Int64|UInt64|Float64|FS::Path|Sync::Once|Sync::WaitGroup)(::|$)`)
 
+// finding is one violation candidate of one call.
+type finding struct {
+	item   int
+	sig    string
+	detail string
+	input  any
+}
+
+// judged is what one call contributed.
+type judged struct {
+	findings []finding
+	outcome  string
+	counters []string
+	blocked  string
+	reached  bool // the call got into the method and came back with a result or an Elk error other than NoMethodError / arity
+	ran      bool // accepted by the checker and executed
+}
+
+// judge applies the oracle to one executed call.
+func judge(t target, i int, cl call, ir itemResult, debugMode bool) (j judged) {
+	m := t.m
+	sig := m.InspectSignature(true)
+	input := map[string]any{"method": t.id, "signature": sig, "program": header + itemSource(i, cl) + "res\n"}
+	oc := &octx{bind: cl.recv.bind, recv: value.Undefined}
+	if ir.ready && !t.singleton && callName(t) != "#init" {
+		oc.recv = ir.recv
+	}
+	what := fmt.Sprintf("%s\n  header: %s\n  receiver: %s\n  call: %s", t.id, sig, cl.recv.expr, cl.src)
+	add := func(sig, detail string) {
+		j.findings = append(j.findings, finding{item: i, sig: sig, detail: detail, input: input})
+	}
+	switch {
+	case ir.panicked != "":
+		j.ran = true
+		add(panicSignature(t, cl, ir), what+"\n  Go panic: "+ir.panicked+"\n"+short(trimStack(ir.stack), 1000))
+		j.outcome = "go-panic"
+	case ir.blocked:
+		j.counters = append(j.counters, "call blocked (did not return within 6 s; abandoned, noted, not a violation of this property)")
+		j.outcome = "blocked"
+		j.blocked = fmt.Sprintf("%s: receiver %s call %s", t.id, cl.recv.expr, cl.src)
+	case ir.rejected:
+		j.counters = append(j.counters, "pool gap: call rejected by the type checker")
+		j.outcome = "rejected"
+		if debugMode {
+			debugf("REJ %s: %s\n     %s\n", t.id, cl.src, short(strings.ReplaceAll(ir.diag, "\n", " | "), 300))
+		}
+	case ir.tag == "" && !ir.ready:
+		j.counters = append(j.counters, "receiver construction did not complete")
+	case ir.tag == "":
+		j.counters = append(j.counters, "call did not complete (no result recorded)")
+	case ir.tag == "err" && !ir.ready:
+		j.counters = append(j.counters, "receiver expression raised")
+		if debugMode {
+			debugf("RECVERR %s: %s → %s\n", t.id, cl.recv.expr, short(ir.val.Inspect(), 200))
+		}
+	case ir.tag == "err":
+		ev := ir.val
+		ecls := className(ev)
+		j.ran = true
+		j.outcome = "raised " + ecls
+		j.reached = true
+		msg := ""
+		if o, ok := ev.SafeAsReference().(*value.Object); ok && value.IsA(ev, value.ErrorClass) {
+			if mv := o.Message(); !mv.IsUndefined() {
+				msg = mv.Inspect()
+			}
+		}
+		switch {
+		case value.IsA(ev, value.NoMethodErrorClass):
+			j.reached = false
+			add(fmt.Sprintf("NoMethodError calling %s", t.id), what+"\n  raised: "+short(ev.Inspect(), 300))
+		case value.IsA(ev, value.ArgumentErrorClass) && strings.Contains(msg, "wrong number of arguments"):
+			j.reached = false
+			add(fmt.Sprintf("wrong-argument-count error calling %s with %d argument(s)", t.id, cl.arity), what+"\n  raised: "+short(ev.Inspect(), 300))
+		case value.IsA(ev, value.ErrorClass):
+			// the declared throw type or an unchecked runtime error (any Std::Error)
+			if value.IsA(ev, value.TypeErrorClass) {
+				j.counters = append(j.counters, "TypeError raised by a well-typed call (not a violation of the statement)")
+				if debugMode {
+					debugf("TYPEERR %s: %s on %s → %s\n", t.id, cl.src, cl.recv.expr, short(ev.Inspect(), 200))
+				}
+			}
+		default:
+			switch check(ev, m.ThrowType, oc) {
+			case violates:
+				add(fmt.Sprintf("%s throws a %s: neither its declared throw type nor a Std::Error", t.id, ecls),
+					what+fmt.Sprintf("\n  declared throw type: %s\n  thrown: %s", types.Inspect(m.ThrowType), short(ev.Inspect(), 300)))
+			case undecided:
+				j.counters = append(j.counters, "thrown value not decidable against the declared throw type")
+			}
+		}
+	default: // ok / void
+		j.ran = true
+		j.reached = true
+		if ir.tag == "void" {
+			j.outcome = "returned (void)"
+			break
+		}
+		v := ir.val
+		j.outcome = "returned " + className(v)
+		if _, ok := safeClass(v); !ok {
+			add(fmt.Sprintf("%s returns a malformed value (a reference to a nil Go pointer): its class cannot be taken", t.id),
+				what+fmt.Sprintf("\n  declared return type: %s\n  returned: a value whose Class() panics", types.Inspect(m.ReturnType)))
+			break
+		}
+		var rt types.Type = m.ReturnType
+		if callName(t) == "#init" {
+			rt = t.ns
+		}
+		switch check(v, rt, oc) {
+		case violates:
+			add(fmt.Sprintf("%s returns a %s but is declared to return %s", t.id, className(v), types.Inspect(rt)),
+				what+fmt.Sprintf("\n  declared return type: %s\n  returned: %s (class %s)", types.Inspect(rt), short(safeInspect(v), 300), className(v)))
+		case undecided:
+			j.counters = append(j.counters, "result not decidable against the declared return type (type parameter / callable / singleton type)")
+		}
+	}
+	return j
+}
+
+// tainted is set once this process has recovered a Go panic raised inside elk: process-global state (locks held by
+// the panicking native, half-updated tables) may be inconsistent from then on, so every later finding of this
+// process is confirmed by re-running the call in a fresh process before it is reported.
+var tainted bool
+
+// confirmInChild re-judges the given calls of a method in a fresh process and returns the signatures found there.
+func confirmInChild(c *engine.Ctx, t target, items []int) (map[string]bool, error) {
+	exe, err := os.Executable()
+	if err != nil {
+		return nil, err
+	}
+	var parts []string
+	for _, i := range items {
+		parts = append(parts, strconv.Itoa(i))
+	}
+	ctx, cancel := context.WithTimeout(context.Background(), 90*time.Second)
+	defer cancel()
+	cmd := exec.CommandContext(ctx, exe, "--tier", c.Tier)
+	cmd.Env = append(os.Environ(), "C28_CONFIRM="+t.id, "C28_CONFIRM_ITEMS="+strings.Join(parts, ","), "VERIF_WORKER=1")
+	out, err := cmd.Output()
+	sigs := map[string]bool{}
+	for _, l := range strings.Split(string(out), "\n") {
+		if strings.HasPrefix(l, "SIG\t") {
+			sigs[strings.TrimPrefix(l, "SIG\t")] = true
+		}
+	}
+	if !strings.Contains(string(out), "\nDONE\n") && !strings.HasPrefix(string(out), "DONE\n") {
+		// the child died (fatal error) or hung: a crash confirms a crash-like finding only; report nothing else
+		return sigs, fmt.Errorf("confirmation process did not finish: %v", err)
+	}
+	return sigs, nil
+}
+
+// childMain is the entry point of a confirmation process.
+func childMain(tier string) {
+	elkrun.Init()
+	debug.SetMaxStack(64 << 20)
+	env = checker.NewGlobalEnvironment()
+	allNS = allNamespaces()
+	id := os.Getenv("C28_CONFIRM")
+	want := map[int]bool{}
+	for _, p := range strings.Split(os.Getenv("C28_CONFIRM_ITEMS"), ",") {
+		if n, err := strconv.Atoi(p); err == nil {
+			want[n] = true
+		}
+	}
+	out := confirmOut // the real stdout (elkrun.Init redirects os.Stdout in worker mode)
+	for _, t := range targets(allNS) {
+		if t.id != id {
+			continue
+		}
+		pl := makePlan(t, maxPerParamFor(tier == "thorough"))
+		res := make([]itemResult, len(pl.calls))
+		for i := range pl.calls {
+			if !want[i] {
+				continue
+			}
+			runItems(pl.calls, []int{i}, res, 0)
+			for _, f := range judge(t, i, pl.calls[i], res[i], false).findings {
+				fmt.Fprintf(out, "SIG\t%s\n", f.sig)
+			}
+		}
+	}
+	fmt.Fprintf(out, "DONE\n")
+	os.Exit(0)
+}
+
+var confirmOut *os.File
+
+func maxPerParamFor(thorough bool) int {
+	if thorough {
+		return 4
+	}
+	return 3
+}
+
 func run(c *engine.Ctx) {
 	all := allNS
 	ts := targets(all)
@@ -1347,10 +1690,7 @@ func run(c *engine.Ctx) {
 	if only != "" {
 		onlyRe = regexp.MustCompile(only)
 	}
-	maxPerParam := 3
-	if c.Thorough {
-		maxPerParam = 4
-	}
+	maxPerParam := maxPerParamFor(c.Thorough)
 	for _, t := range ts {
 		t := t
 		if onlyRe != nil && !onlyRe.MatchString(t.id) {
@@ -1389,6 +1729,7 @@ func run(c *engine.Ctx) {
 				}
 				return
 			}
+			wasTainted := tainted
 			res := make([]itemResult, len(pl.calls))
 			idx := make([]int, len(pl.calls))
 			for i := range idx {
@@ -1397,95 +1738,56 @@ func run(c *engine.Ctx) {
 			runItems(pl.calls, idx, res, 0)
 			aritiesOK := map[int]bool{}
 			aritiesAll := map[int]bool{}
+			var findings []finding
 			for i, cl := range pl.calls {
-				ir := res[i]
+				j := judge(t, i, cl, res[i], debugMode)
 				aritiesAll[cl.arity] = true
 				r.Eval(1)
-				code := strings.Replace(itemSource(i, cl), "\n", "\n", -1)
-				input := map[string]any{"method": t.id, "signature": sig, "program": header + code + "res\n"}
-				oc := &octx{bind: cl.recv.bind, recvName: t.ns.Name()}
-				what := fmt.Sprintf("%s\n  header: %s\n  receiver: %s\n  call: %s", t.id, sig, cl.recv.expr, cl.src)
-				switch {
-				case ir.panicked != "":
-					r.Violation(fmt.Sprintf("go-panic calling %s: %s", t.id, ir.panicked), what+"\n"+short(ir.stack, 1200), input)
-					r.Outcome("go-panic")
-				case ir.rejected:
-					r.Count("pool gap: call rejected by the type checker", 1)
-					r.Outcome("rejected")
-					if debugMode {
-						debugf("REJ %s: %s\n     %s\n", t.id, cl.src, short(strings.ReplaceAll(ir.diag, "\n", " | "), 300))
-					}
-				case ir.tag == "" && !ir.ready:
-					r.Count("receiver construction did not complete", 1)
-				case ir.tag == "":
-					r.Count("call did not complete (no result recorded)", 1)
-				case ir.tag == "err" && !ir.ready:
-					r.Count("receiver expression raised", 1)
-					if debugMode {
-						debugf("RECVERR %s: %s → %s\n", t.id, cl.recv.expr, short(ir.val.Inspect(), 200))
-					}
-				case ir.tag == "err":
-					ev := ir.val
-					ecls := className(ev)
+				if j.ran {
 					r.NT(1)
-					r.Outcome("raised " + ecls)
+				}
+				if j.reached {
 					aritiesOK[cl.arity] = true
-					msg := ""
-					if o, ok := ev.SafeAsReference().(*value.Object); ok && value.IsA(ev, value.ErrorClass) {
-						if mv := o.Message(); !mv.IsUndefined() {
-							msg = mv.Inspect()
-						}
-					}
-					switch {
-					case value.IsA(ev, value.NoMethodErrorClass):
-						aritiesOK[cl.arity] = false
-						r.Violation(fmt.Sprintf("NoMethodError calling %s", t.id), what+"\n  raised: "+short(ev.Inspect(), 300), input)
-					case value.IsA(ev, value.ArgumentErrorClass) && strings.Contains(msg, "wrong number of arguments"):
-						aritiesOK[cl.arity] = false
-						r.Violation(fmt.Sprintf("wrong-argument-count error calling %s with %d argument(s)", t.id, cl.arity), what+"\n  raised: "+short(ev.Inspect(), 300), input)
-					default:
-						// declared throw type or an unchecked runtime error (any Std::Error)
-						if value.IsA(ev, value.ErrorClass) {
-							if value.IsA(ev, value.TypeErrorClass) {
-								r.Count("TypeError raised by a well-typed call (not a violation of the statement)", 1)
-								if debugMode {
-									debugf("TYPEERR %s: %s on %s → %s\n", t.id, cl.src, cl.recv.expr, short(ev.Inspect(), 200))
-								}
-							}
-							break
-						}
-						switch check(ev, m.ThrowType, oc) {
-						case violates:
-							r.Violation(fmt.Sprintf("%s throws a %s: neither its declared throw type nor a Std::Error", t.id, ecls),
-								what+fmt.Sprintf("\n  declared throw type: %s\n  thrown: %s", types.Inspect(m.ThrowType), short(ev.Inspect(), 300)), input)
-						case undecided:
-							r.Count("thrown value not decidable against the declared throw type", 1)
-						}
-					}
-				default: // ok / void
-					aritiesOK[cl.arity] = true
-					r.NT(1)
-					if ir.tag == "void" {
-						r.Outcome("returned (void)")
-						break
-					}
-					v := ir.val
-					r.Outcome("returned " + className(v))
-					rt := m.ReturnType
-					if callName(t) == "#init" {
-						rt = t.ns
-						if g, ok := rt.(types.Namespace); ok {
-							_ = g
-						}
-					}
-					switch check(v, rt, oc) {
-					case violates:
-						r.Violation(fmt.Sprintf("%s returns a %s but is declared to return %s", t.id, className(v), types.Inspect(rt)),
-							what+fmt.Sprintf("\n  declared return type: %s\n  returned: %s (class %s)", types.Inspect(rt), short(v.Inspect(), 300), className(v)), input)
-					case undecided:
-						r.Count("result not decidable against the declared return type (type parameter / callable / singleton type)", 1)
+				}
+				if j.outcome != "" {
+					r.Outcome(j.outcome)
+				}
+				for _, cn := range j.counters {
+					r.Count(cn, 1)
+				}
+				if j.blocked != "" {
+					r.Note("blocked: " + j.blocked)
+				}
+				findings = append(findings, j.findings...)
+			}
+			// findings made in a process that had recovered a Go panic before this case (or earlier in this case)
+			// are confirmed in a fresh process
+			if len(findings) > 0 && (wasTainted || tainted) {
+				seen := map[int]bool{}
+				var items []int
+				for _, f := range findings {
+					if !seen[f.item] {
+						seen[f.item] = true
+						items = append(items, f.item)
 					}
 				}
+				sigs, err := confirmInChild(c, t, items)
+				var kept []finding
+				for _, f := range findings {
+					if sigs[f.sig] {
+						kept = append(kept, f)
+					} else {
+						r.Count("finding not confirmed in a fresh process (dropped)", 1)
+						if debugMode {
+							debugf("UNCONFIRMED %s: %s (child error: %v; child found %v)\n", t.id, f.sig, err, sigs)
+						}
+					}
+				}
+				r.Count("findings confirmed in a fresh process", len(kept))
+				findings = kept
+			}
+			for _, f := range findings {
+				r.Violation(f.sig, f.detail, f.input)
 			}
 			for a := range aritiesAll {
 				if aritiesOK[a] {
@@ -1500,6 +1802,18 @@ func run(c *engine.Ctx) {
 }
 
 func main() {
+	if os.Getenv("C28_CONFIRM") != "" {
+		// keep the real stdout for the protocol before elkrun.Init redirects os.Stdout
+		confirmOut = os.Stdout
+		tier := "quick"
+		for i, a := range os.Args {
+			if a == "--tier" && i+1 < len(os.Args) {
+				tier = os.Args[i+1]
+			}
+		}
+		childMain(tier)
+		return
+	}
 	var notes []string
 	for _, e := range exclusions {
 		notes = append(notes, e.re.String()+": "+e.reason)
@@ -1512,18 +1826,20 @@ func main() {
 			"× every admissible arity (required … required+optional; rest parameters get no arguments) × argument tuples from per-type pools (≤ 3 values per parameter, thorough 4; full product when ≤ 12 tuples, else the first tuple and every single-parameter variation); " +
 			"each call type-checked as its own item (rejections = pool gaps, counted), run in the VM, result/thrown value inspected in Go (value.IsA) against the declared return/throw type; " +
 			"non-trivial = a call that was accepted and ran to a result or an Elk error",
-		Assume: append([]string{
+		Assume: []string{
 			"explicit exclusions (not called): macros, abstract/interface-only declarations, private methods, generator/async methods, and: " + strings.Join(notes, "; "),
 			"an unchecked runtime error is any instance of Std::Error; TypeError on a well-typed call is counted, not reported",
 			"generic return types are checked for the outer class only; results typed by method-level type parameters, callables and singleton types are counted as undecidable",
-		}),
+			"after a worker process has recovered a Go panic raised inside elk, every later finding of that process is re-run in a fresh process and reported only if it reproduces there",
+		},
 		Setup: func(c *engine.Ctx) {
 			elkrun.Init()
+			debug.SetMaxStack(64 << 20) // runaway native recursion dies quickly instead of growing a 1 GB stack
 			env = checker.NewGlobalEnvironment()
 			allNS = allNamespaces()
 		},
 		Run:             run,
 		HangIsViolation: false,
-		CaseTimeout:     60 * time.Second,
+		CaseTimeout:     150 * time.Second,
 	})
 }
